@@ -63,7 +63,7 @@ def run(prop, tier):
         if prop == "C15":
             progs = [p for p in progs if has_call(p, "MetaData")]
         if keep is not None:
-            progs = common.subsample(progs, keep, salt=name)
+            progs = common.subsample_stratified(progs, keep, salt=name)
         fam_counts[name] = {"generated": total, "replayed": len(progs), "budget": budget,
                             "exhaustive": keep is None or len(progs) < keep}
         for p in progs:
